@@ -696,6 +696,91 @@ pub fn case_zst(bytes: &[u8], _s: &[u8], ctx: &mut Ctx) -> Result<(), Fail> {
     Ok(())
 }
 
+static CNT_MADE: std::sync::atomic::AtomicU64 = std::sync::atomic::AtomicU64::new(0);
+static CNT_DROPPED: std::sync::atomic::AtomicU64 = std::sync::atomic::AtomicU64::new(0);
+
+/// Element that only counts constructions (new or clone) and destructions.
+struct Cnt(u32);
+impl Cnt {
+    fn new(i: u32) -> Cnt {
+        CNT_MADE.fetch_add(1, Ordering::Relaxed);
+        Cnt(i)
+    }
+}
+impl Clone for Cnt {
+    fn clone(&self) -> Self {
+        Cnt::new(self.0)
+    }
+}
+impl Drop for Cnt {
+    fn drop(&mut self) {
+        CNT_DROPPED.fetch_add(1, Ordering::Relaxed);
+    }
+}
+
+/// Free-running stress: a shared slice whose only strong reference is the Cow, while the caller still holds a
+/// `Weak` to the same Arc and another thread keeps upgrading it. into_owned() on the Cow, then everything is
+/// dropped: every element constructed (originals and clones) is destroyed exactly once.
+fn stress_sole_owner_with_weak(pr: &PropRun) -> LaneReport {
+    use std::sync::atomic::AtomicBool;
+    let start = std::time::Instant::now();
+    let mut rep = LaneReport::named("stress-into_owned-while-a-weak-is-upgraded");
+    let rounds = pr.cfg.cases(200, 6_000);
+    let n = 30_000u32;
+    let mut bad: Option<String> = None;
+    for round in 0..rounds {
+        CNT_MADE.store(0, Ordering::SeqCst);
+        CNT_DROPPED.store(0, Ordering::SeqCst);
+        let arc: Arc<[Cnt]> = (0..n).map(Cnt::new).collect();
+        let weak = Arc::downgrade(&arc);
+        let cow: Cow<'static, [Cnt]> = Cow::from_shared(arc);
+        let stop = AtomicBool::new(false);
+        let upgrades = std::sync::atomic::AtomicU64::new(0);
+        let mut len_ok = true;
+        std::thread::scope(|s| {
+            let (weak, stop, upgrades) = (&weak, &stop, &upgrades);
+            s.spawn(move || {
+                while !stop.load(Ordering::Acquire) {
+                    if let Some(a) = weak.upgrade() {
+                        upgrades.fetch_add(1, Ordering::Relaxed);
+                        std::hint::black_box(a.len());
+                        drop(a);
+                    }
+                }
+            });
+            // (wait until the other thread is really running, then a little longer, differently every round)
+            while upgrades.load(Ordering::Relaxed) == 0 {
+                std::hint::spin_loop();
+            }
+            for _ in 0..(round % 40) * 50 {
+                std::hint::spin_loop();
+            }
+            let v: Vec<Cnt> = cow.into_owned();
+            len_ok = v.len() == n as usize && v.iter().enumerate().all(|(i, c)| c.0 == i as u32);
+            stop.store(true, Ordering::Release);
+            drop(v);
+        });
+        drop(weak);
+        let (made, dropped) = (CNT_MADE.load(Ordering::SeqCst), CNT_DROPPED.load(Ordering::SeqCst));
+        let mut ctx = Ctx::default();
+        ctx.fingerprint = Some(round);
+        ctx.nontrivial("into_owned-of-a-sole-strong-reference-while-a-weak-is-upgraded");
+        if round == 0 {
+            ctx.desc = Some(format!("Arc<[Cnt]> of {} elements, downgraded; Cow::from_shared takes the only strong reference; one thread loops Weak::upgrade while into_owned() runs", n));
+        }
+        rep.account(ctx);
+        if !len_ok || made != dropped {
+            bad = Some(format!("round {}: {} elements were constructed (originals and clones) and {} destructors ran; content intact: {} ({} successful upgrades so far)", round, made, dropped, len_ok, upgrades.load(Ordering::Relaxed)));
+            break;
+        }
+    }
+    if let Some(msg) = bad {
+        rep.violations.push(crate::engine::runner::Violation { lane: "stress-into_owned-while-a-weak-is-upgraded".into(), sig: "element-drop-count".into(), msg, bytes: vec![], sched: vec![], decoded: "free-running threads (not deterministically replayable)".into() });
+    }
+    rep.wall_s = start.elapsed().as_secs_f64();
+    rep
+}
+
 fn probes(pr: &PropRun) -> crate::engine::runner::LaneReport {
     use crate::engine::runner::{LaneReport, Violation};
     use std::process::Command;
@@ -796,6 +881,8 @@ pub fn run(cfg: &RunCfg, replay: Option<&str>) -> i32 {
     let r = run_lane(&c, "C14", &Lane { name: "zero-sized-elements", cases: c.cases(4_000, 100_000), max_len: 8, sched_len: 0, workers: 1, f: &case_zst });
     pr.push(r);
     let r = exhaustive(&pr);
+    pr.push(r);
+    let r = stress_sole_owner_with_weak(&pr);
     pr.push(r);
     let r = probes(&pr);
     pr.push(r);
